@@ -62,19 +62,239 @@ theorem insertInto_eq (t : Tree) (L : Layer) (rest : Key) (v : Val) :
               Yak.Const.keySliceLength then none
           else some (L.pfx, route (KT.ofKey rest) L.leaves + 1) } := by
   unfold insertInto insLeaves entOf subOf
-  simp only [decide_eq_true_eq]
+  dsimp only
   split <;> rfl
 
 theorem leafKeys_eq (l : Leaf) : leafKeys l = l.ents.map (·.kt) := rfl
 
 /-- everything about the position of a new tuple in the routed leaf -/
 theorem insert_position {leaves pre post : List Leaf} {leaf : Leaf} {e : Ent}
-    (hc : LayerCore leaves) (hw : e.kt.WF) (hr : Routed leaves e.kt pre leaf post)
+    (hc : LayerCore leaves) (hw : e.kt.WF) (hv : e.val = none ↔ e.kt.len = 9)
+    (hr : Routed leaves e.kt pre leaf post)
     (hno : ∀ x ∈ layerEnts leaves, x.kt ≠ e.kt) :
     ∃ a b, leaf.ents = a ++ b ∧ (∀ x ∈ a, KT.ltSpec x.kt e.kt = true) ∧
       (∀ x ∈ b, KT.ltSpec e.kt x.kt = true) ∧ rankIfInsert e.kt (leafKeys leaf) = a.length ∧
       (a ++ e :: b).Pairwise (fun x y => KT.ltSpec x.kt y.kt = true) ∧
-      (∀ x ∈ a ++ e :: b, x.kt.WF ∧ (x.val = none ↔ x.kt.len = 9)) := by
-  sorry
+      (∀ x ∈ a ++ e :: b, x.kt.WF ∧ (x.val = none ↔ x.kt.len = 9)) ∧
+      (∀ f ∈ leaf.fence, ∀ x ∈ a ++ e :: b, KT.ltSpec x.kt f = false) ∧
+      (∀ b' ∈ post, ∀ f ∈ b'.fence, ∀ x ∈ a ++ e :: b, KT.ltSpec x.kt f = true) := by
+  have heq := hr.eq
+  subst heq
+  have hl : LeafOK leaf := hc.leafOK
+  have hwf : ∀ x ∈ leaf.ents, x.kt.WF := fun x hx => (hl.2.1 x hx).1
+  have hno' : ∀ x ∈ leaf.ents, x.kt ≠ e.kt := by
+    intro x hx; apply hno; rw [layerEnts_split]; simp [hx]
+  obtain ⟨a, b, h0, ha, hb⟩ := sorted_insert_decomp hw leaf.ents hwf hl.2.2.1 hno'
+  refine ⟨a, b, h0, ha, hb, ?_, ?_, ?_, ?_, ?_⟩
+  · rw [leafKeys_eq]; exact rank_eq_of_decomp hw h0 hwf hl.2.2.1 ha hb
+  · exact sorted_insert (h0 ▸ hl.2.2.1) ha hb
+  · intro x hx
+    simp only [List.mem_append, List.mem_cons] at hx
+    rcases hx with hx | hx | hx
+    · exact hl.2.1 x (by rw [h0]; simp [hx])
+    · subst hx; exact ⟨hw, hv⟩
+    · exact hl.2.1 x (by rw [h0]; simp [hx])
+  · intro f hf x hx
+    simp only [List.mem_append, List.mem_cons] at hx
+    rcases hx with hx | hx | hx
+    · exact hl.2.2.2 f hf x (by rw [h0]; simp [hx])
+    · subst hx; exact hr.lo f hf
+    · exact hl.2.2.2 f hf x (by rw [h0]; simp [hx])
+  · intro b' hb' f hf x hx
+    simp only [List.mem_append, List.mem_cons] at hx
+    rcases hx with hx | hx | hx
+    · exact (hc.before_post b' hb' f hf).2 x (by rw [h0]; simp [hx])
+    · subst hx; exact hr.hi b' hb' f hf
+    · exact (hc.before_post b' hb' f hf).2 x (by rw [h0]; simp [hx])
+
+theorem insLeaves_lt {leaves pre post : List Leaf} {leaf : Leaf} {k : KT} (e : Ent)
+    (hr : Routed leaves k pre leaf post) (hlt : leaf.ents.length < 15) :
+    insLeaves leaves k e = pre ++ { leaf with
+      ents := insertIdx' leaf.ents (rankIfInsert k (leafKeys leaf)) e,
+      vins := leaf.vins + 1, deleted := false } :: post := by
+  unfold insLeaves
+  simp only [hr.getD]
+  rw [if_pos (by simpa [Yak.Const.keySliceLength] using hlt), hr.set]
+
+theorem insLeaves_ge {leaves pre post : List Leaf} {leaf : Leaf} {k : KT} (e : Ent)
+    (hr : Routed leaves k pre leaf post) (hge : ¬ leaf.ents.length < 15) :
+    insLeaves leaves k e = pre ++
+      { leaf with
+        ents := (if borderSplitLower k ((leaf.ents.drop 8).headD default).kt
+            (rankIfInsert k (leafKeys leaf)) 8 then
+          insertIdx' (leaf.ents.take 8) (rankIfInsert k (leafKeys leaf)) e else leaf.ents.take 8),
+        vins := leaf.vins + 1, vsplit := leaf.vsplit + 1, deleted := false } ::
+      ⟨some ((leaf.ents.drop 8).headD default).kt, leaf.vins + 1, leaf.vsplit + 1, false,
+        (if borderSplitLower k ((leaf.ents.drop 8).headD default).kt
+            (rankIfInsert k (leafKeys leaf)) 8 then
+          leaf.ents.drop 8 else insertIdx' (leaf.ents.drop 8) (rankIfInsert k (leafKeys leaf) - 8) e)⟩ ::
+      post := by
+  unfold insLeaves
+  simp only [hr.getD]
+  rw [if_neg (by simpa [Yak.Const.keySliceLength] using hge), hr.take, hr.drop]
+  simp [Yak.Const.borderRemaining]
+
+theorem mem_layerEnts_replace {pre post : List Leaf} {leaf leaf' : Leaf} {e : Ent} {a b : List Ent}
+    (h0 : leaf.ents = a ++ b) (h1 : leaf'.ents = a ++ e :: b) (x : Ent) :
+    x ∈ layerEnts (pre ++ leaf' :: post) ↔ x = e ∨ x ∈ layerEnts (pre ++ leaf :: post) := by
+  rw [layerEnts_split, layerEnts_split, h0, h1]
+  simp only [List.mem_append, List.mem_cons]
+  constructor
+  · rintro (h | (h | h | h) | h)
+    · exact Or.inr (Or.inl h)
+    · exact Or.inr (Or.inr (Or.inl (Or.inl h)))
+    · exact Or.inl h
+    · exact Or.inr (Or.inr (Or.inl (Or.inr h)))
+    · exact Or.inr (Or.inr (Or.inr h))
+  · rintro (h | h | (h | h) | h)
+    · exact Or.inr (Or.inl (Or.inr (Or.inl h)))
+    · exact Or.inl h
+    · exact Or.inr (Or.inl (Or.inl h))
+    · exact Or.inr (Or.inl (Or.inr (Or.inr h)))
+    · exact Or.inr (Or.inr h)
+
+theorem insLeaves_spec {leaves : List Leaf} (hc : LayerCore leaves) {r : Bool} (hE : EmptOK r leaves)
+    {e : Ent} (hw : e.kt.WF) (hv : e.val = none ↔ e.kt.len = 9)
+    (hno : ∀ x ∈ layerEnts leaves, x.kt ≠ e.kt) :
+    LayerCore (insLeaves leaves e.kt e) ∧ EmptOK r (insLeaves leaves e.kt e) ∧
+    (∀ x, x ∈ layerEnts (insLeaves leaves e.kt e) ↔ x = e ∨ x ∈ layerEnts leaves) := by
+  obtain ⟨pre, leaf, post, hr⟩ := route_decomp hc hw
+  obtain ⟨a, b, h0, ha, hb, hrank, hsorted, hwf, hlo, hhi⟩ := insert_position hc hw hv hr hno
+  have heq := hr.eq
+  have hl : LeafOK leaf := by subst heq; exact hc.leafOK
+  have hfull : AllFull (pre ++ post) := by subst heq; exact hE.others_full
+  by_cases hlt : leaf.ents.length < 15
+  · rw [insLeaves_lt e hr hlt, hrank]
+    have hins : insertIdx' leaf.ents a.length e = a ++ e :: b := by rw [h0]; exact insertIdx'_append a b e
+    rw [hins]
+    subst heq
+    refine ⟨?_, ?_, ?_⟩
+    · refine hc.replace ?_ ?_ ?_
+      · rfl
+      · refine ⟨?_, hwf, hsorted, hlo⟩
+        have := congrArg List.length h0
+        simp only [List.length_append, List.length_cons] at this ⊢
+        omega
+      · exact hhi
+    · exact (hfull.insert (by simp) rfl).emptOK r
+    · exact mem_layerEnts_replace h0 rfl
+  · have hlen : leaf.ents.length = 15 := by have := hl.1; omega
+    rw [insLeaves_ge e hr hlt, hrank]
+    obtain ⟨lo', hi', h, hs, e1, e2, e3, e4, e5, e6, e7, e8, e9⟩ :=
+      split_shape (first := ((leaf.ents.drop 8).headD default).kt) h0 hlen rfl hw
+        (fun x hx => (hl.2.1 x hx).1) ha hb
+    rw [e1, e2]
+    generalize ((leaf.ents.drop 8).headD default).kt = first at *
+    subst e4
+    have hsp := hsorted
+    rw [← e7, List.pairwise_append] at hsp
+    have hmemL : ∀ x ∈ lo', x ∈ a ++ e :: b := by intro x hx; rw [← e7]; simp [hx]
+    have hmemR : ∀ x ∈ hi', x ∈ a ++ e :: b := by intro x hx; rw [← e7]; simp [hx]
+    have hhw : h.kt.WF := (hl.2.1 h e5).1
+    have hhh : h ∈ hi' := by rw [e3]; simp
+    obtain ⟨y, hy⟩ := List.exists_mem_of_ne_nil lo' e6
+    have hyh : KT.ltSpec y.kt h.kt = true := hsp.2.2 y hy h hhh
+    subst heq
+    refine ⟨?_, ?_, ?_⟩
+    · refine hc.split (first := h.kt) ?_ ?_ ?_ ?_ ?_ ?_ ?_ ?_ ?_
+      · rfl
+      · rfl
+      · exact ⟨by simp only; omega, fun x hx => hwf x (hmemL x hx), hsp.1,
+          fun f hf x hx => hlo f hf x (hmemL x hx)⟩
+      · refine ⟨by simp only; omega, fun x hx => hwf x (hmemR x hx), hsp.2.1, ?_⟩
+        intro f hf x hx
+        have : h.kt = f := Option.some.inj hf
+        subst this
+        simp only at hx
+        rw [e3] at hx
+        rcases List.mem_cons.mp hx with hx | hx
+        · subst hx; exact KT.ltSpec_irrefl _
+        · have := hsp.2.1
+          rw [e3, List.pairwise_cons] at this
+          exact lt_asymm (this.1 x hx)
+      · exact hhw
+      · exact len_ne_zero_of_lt hyh
+      · intro g hg
+        have hpre : pre ≠ [] := by
+          intro ee; subst ee
+          rw [hc.head_none] at hg; cases hg
+        obtain ⟨g', hg', hgw, _⟩ := hc.mid_fence hpre
+        have : g' = g := by rw [hg'] at hg; exact Option.some.inj hg
+        subst this
+        exact le_lt_trans hgw hhw (hlo g' hg y (hmemL y hy)) hyh
+      · intro x hx; exact hsp.2.2 x hx h hhh
+      · intro b' hb' f hf
+        refine ⟨(hc.before_post b' hb' f hf).2 h e5, ?_⟩
+        intro x hx
+        simp only at hx
+        rw [e7] at hx
+        exact hhi b' hb' f hf x hx
+    · have h1 : AllFull (pre ++ (⟨some h.kt, leaf.vins + 1, leaf.vsplit + 1, false, hi'⟩ :: post)) :=
+        hfull.insert (by simp only; rw [e3]; simp) rfl
+      exact AllFull.emptOK (AllFull.insert h1 e6 rfl) r
+    · intro x
+      rw [layerEnts_split, layerEnts_split]
+      have : layerEnts ((⟨some h.kt, leaf.vins + 1, leaf.vsplit + 1, false, hi'⟩ : Leaf) :: post) =
+          hi' ++ layerEnts post := by simp [layerEnts]
+      rw [this, h0]
+      simp only
+      have hx : x ∈ lo' ++ hi' ↔ x = e ∨ x ∈ a ∨ x ∈ b := by
+        rw [e7]; simp only [List.mem_append, List.mem_cons]
+        constructor
+        · rintro (h | h | h)
+          · exact Or.inr (Or.inl h)
+          · exact Or.inl h
+          · exact Or.inr (Or.inr h)
+        · rintro (h | h | h)
+          · exact Or.inr (Or.inl h)
+          · exact Or.inl h
+          · exact Or.inr (Or.inr h)
+      simp only [List.mem_append] at hx ⊢
+      constructor
+      · rintro (h | h | h | h)
+        · exact Or.inr (Or.inl h)
+        · rcases hx.mp (Or.inl h) with h | h | h
+          · exact Or.inl h
+          · exact Or.inr (Or.inr (Or.inl (Or.inl h)))
+          · exact Or.inr (Or.inr (Or.inl (Or.inr h)))
+        · rcases hx.mp (Or.inr h) with h | h | h
+          · exact Or.inl h
+          · exact Or.inr (Or.inr (Or.inl (Or.inl h)))
+          · exact Or.inr (Or.inr (Or.inl (Or.inr h)))
+        · exact Or.inr (Or.inr (Or.inr h))
+      · rintro (h | h | (h | h) | h)
+        · rcases hx.mpr (Or.inl h) with h | h
+          · exact Or.inr (Or.inl h)
+          · exact Or.inr (Or.inr (Or.inl h))
+        · exact Or.inl h
+        · rcases hx.mpr (Or.inr (Or.inl h)) with h | h
+          · exact Or.inr (Or.inl h)
+          · exact Or.inr (Or.inr (Or.inl h))
+        · rcases hx.mpr (Or.inr (Or.inr h)) with h | h
+          · exact Or.inr (Or.inl h)
+          · exact Or.inr (Or.inr (Or.inl h))
+        · exact Or.inr (Or.inr (Or.inr h))
+
+/-- what `put` reports about the versions (C12), on the chain alone -/
+theorem insLeaves_report {leaves : List Leaf} (hc : LayerCore leaves) {k : KT} (hk : k.WF) (e : Ent) :
+    ∃ leaf, leaves[route k leaves]? = some leaf ∧
+      leaves.getD (route k leaves) emptyLeaf = leaf ∧
+      ((leaf.ents.length < 15 ∧ ∃ leaf', insLeaves leaves k e = leaves.set (route k leaves) leaf' ∧
+          leaf'.vins = leaf.vins + 1 ∧ leaf'.vsplit = leaf.vsplit) ∨
+       (leaf.ents.length = 15 ∧ ∃ a b, insLeaves leaves k e =
+          leaves.take (route k leaves) ++ [a, b] ++ leaves.drop (route k leaves + 1) ∧
+          a.vins = leaf.vins + 1 ∧ a.vsplit = leaf.vsplit + 1 ∧
+          b.vins = leaf.vins + 1 ∧ b.vsplit = leaf.vsplit + 1)) := by
+  obtain ⟨pre, leaf, post, hr⟩ := route_decomp hc hk
+  have hl : LeafOK leaf := by have := hr.eq; subst this; exact hc.leafOK
+  refine ⟨leaf, hr.getElem?, hr.getD, ?_⟩
+  by_cases hlt : leaf.ents.length < 15
+  · refine Or.inl ⟨hlt, { leaf with
+      ents := insertIdx' leaf.ents (rankIfInsert k (leafKeys leaf)) e,
+      vins := leaf.vins + 1, deleted := false }, ?_, rfl, rfl⟩
+    rw [insLeaves_lt e hr hlt, hr.set]
+  · have hlen : leaf.ents.length = 15 := by have := hl.1; omega
+    rw [insLeaves_ge e hr hlt, hr.take, hr.drop]
+    exact Or.inr ⟨hlen, _, _, by rw [List.append_assoc]; rfl, rfl, rfl, rfl, rfl⟩
 
 end Yak.Tree
